@@ -30,6 +30,10 @@ def run(ctx):
     runs = _world.random_runs(ctx, 150 if q else 1500, kinds=("plain", "grid"), mods="any", length=60, weights=W, nseeds=200, n_ids=4,
                               tags=(None, 0, 1, 7, 1000, -7))
     _world.validate_runs(ctx, runs, "populations whose resident agents gain and lose components", expect_clean=False)
+    # heavy turnover with unfiltered random picks and shuffles in between (agents leaving from the middle, the newest leaving later)
+    WT = dict(W, join=12, leave=12, pick=10, shuffle=6, get_agents=4, attach=1, detach=0)
+    runs = _world.random_runs(ctx, 100 if q else 1000, kinds=("plain",), mods="clean", length=80, weights=WT, nseeds=200, n_ids=6, tags=(None,))
+    _world.validate_runs(ctx, runs, "populations with heavy turnover, unfiltered picks and shuffles")
     n = 300 if q else 3000
     for kinds, label in ((("plain",), "plain environment"), (("space", "grid"), "spatial worlds")):
         runs = _world.random_runs(ctx, n, kinds=kinds, mods="clean", length=60, weights=W, nseeds=200, n_ids=4,
